@@ -191,6 +191,28 @@ class MG(Native):
         return False
 
 
+def _mg_closure(g, n, step):
+    if not isinstance(g, MG):
+        raise AnalysisError("evaluator: networkx reachability on a value that is not the graph model")
+    seen, out, work = set(), [], list(step(g, n))
+    while work:
+        x = work.pop()
+        if id(x) in seen or x is n:
+            continue
+        seen.add(id(x))
+        out.append(x)
+        work.extend(step(g, x))
+    return set(out)
+
+
+NX_REACHABILITY = {
+    "networkx.descendants": lambda g, n: _mg_closure(g, n, lambda g_, x: g_.successors(x)),
+    "networkx.ancestors": lambda g, n: _mg_closure(g, n, lambda g_, x: g_.predecessors(x)),
+    "networkx.has_path": lambda g, a, b: a is b or g.reach(a, b),
+}
+NX_REACHABILITY.update({k.replace("networkx.", "networkx.algorithms.dag."): v for k, v in list(NX_REACHABILITY.items()) if "has_path" not in k})
+
+
 def _roles_frame(m, tag):
     from .roles import frame_token
     return frame_token(m, tag)
@@ -210,7 +232,8 @@ class World:
         self.interp = Interp(m, stubs={"fully_qualified_name": Stub("fqn", lambda x: "fn"),
                                        "get_stack_frame": Stub("gsf", lambda *a: "FRESH-FRAME")},
                              ext={"builtins.type": self._type, "builtins.getattr": lambda o, a, d=None: d,
-                                  "threading.RLock": lambda: Obj(None, {}, "lock"), "networkx.MultiDiGraph": lambda: MG(self.interp)})
+                                  "threading.RLock": lambda: Obj(None, {}, "lock"), "networkx.MultiDiGraph": lambda: MG(self.interp),
+                                  **NX_REACHABILITY})
         self.g = MG(self.interp)
         self.plan = Obj(self.C["Plan"], {"graph": self.g, "_scope": (), "_scope_lock": Obj(None, {}, "lock")}, name="plan")
         # whatever further state the constructor sets up (caches, counters ...): take it from interpreting Plan.__init__
